@@ -295,6 +295,53 @@ def head_grammar(lang, text):
             bad.append(f'line {no}: `{kw} {name}` is not followed by `=`')
     return bad
 
+
+GO_ESC = re.compile(r'\\(?:[abfnrtv\\"]|[0-7]{3}|x[0-9a-fA-F]{2}|u[0-9a-fA-F]{4}|U[0-9a-fA-F]{8})')
+
+
+def go_string_escapes(text):
+    """Go interpreted string literals ("..." outside comments, raw strings and rune literals): every backslash must start one of
+    the escapes of the language specification (\\a \\b \\f \\n \\r \\t \\v \\\\ \\" \\ooo \\xhh \\uhhhh \\Uhhhhhhhh); \\' is legal in a rune literal only and
+    \\u{..} is Rust, not Go.  The reference lexer of Spec/C10Spec.v only finds the END of a literal; this finds ill-formed insides."""
+    bad, i, n, line = [], 0, len(text), 1
+    while i < n:
+        c = text[i]
+        if c == '\n':
+            line += 1
+            i += 1
+        elif text.startswith('//', i):
+            j = text.find('\n', i)
+            i = n if j < 0 else j
+        elif text.startswith('/*', i):
+            j = text.find('*/', i + 2)
+            line += text.count('\n', i, n if j < 0 else j)
+            i = n if j < 0 else j + 2
+        elif c == '`':
+            j = text.find('`', i + 1)
+            line += text.count('\n', i, n if j < 0 else j)
+            i = n if j < 0 else j + 1
+        elif c == "'":
+            j = i + 1
+            while j < n and text[j] != "'" and text[j] != '\n':
+                j += 2 if text[j] == '\\' else 1
+            i = j + 1
+        elif c == '"':
+            j = i + 1
+            while j < n and text[j] != '"' and text[j] != '\n':
+                if text[j] == '\\':
+                    m = GO_ESC.match(text, j)
+                    if not m:
+                        bad.append(f'line {line}: `{text[j:j + 6]}` is not an escape sequence of a Go string literal')
+                        j += 2
+                    else:
+                        j = m.end()
+                else:
+                    j += 1
+            i = j + 1
+        else:
+            i += 1
+    return bad
+
 def observe(lang, text):
     """declaring positions + template conformance from the REAL text"""
     o = extract.extract(lang, text)
@@ -332,6 +379,11 @@ def observe(lang, text):
         if hg:
             fails.append('head-grammar')
             why = hg[:3] + why
+    if lang == 'go':
+        ge = go_string_escapes(text)
+        if ge:
+            fails.append('go-escape')
+            why = ge[:3] + why
     if lang == 'python':
         f, w = python_verdict(text)
         fails += f
@@ -460,6 +512,38 @@ def judge(chk, cases, tag):
     return drift
 
 
+
+ODD_WIRE = ["don't know", 'cr\u00e9\u00e9e', "it's", 'na\u00efve', '\u4e2d\u6587', "l'\u00e9t\u00e9", 'a b', 'tab\there']
+
+
+def phase_go_strings(chk, n):
+    """Go only: wire names with an apostrophe, non-ASCII letters, blanks (outside the identifier domain of the lexical theorem, so
+    the other judgements are not applied): what Go prints between double quotes must consist of Go escapes only, and the bytes
+    must be the model's (seeded C10_e: literals built with str::escape_default, which writes \\' and \\u{e9})."""
+    rng = chk.rng
+    cases = []
+    for p in gen_programs(rng, n, True):
+        vs = [v for it in p.items if it.annotated for v in it.variants]
+        if not vs:
+            continue
+        for v in rng.sample(vs, min(len(vs), rng.randint(1, 2))):
+            v.rename = rng.choice(ODD_WIRE)
+        cases.append(('go', rng.choice(configs('1.13.2')['go']), progs.source(p), []))
+    res = back.run_src(cases)
+    drift = []
+    for k, ((lang, cfg, src, _), r) in enumerate(zip(cases, res)):
+        chk.evaluations += 1
+        chk.count('go_string_cases')
+        payload = {'lang': lang, 'cfg': cfg, 'src': src}
+        if r['impl'][0] == 'ok':
+            ge = go_string_escapes(r['impl'][1])
+            if ge:
+                chk.violation(f'go-strings-{k}', dict(payload, why=ge[:4]), 'go output is not well-formed: ' + '; '.join(ge[:3]))
+                continue
+        if not back.same(r['impl'], r['model']):
+            drift.append((payload, 'bytes of the model and of the real Go generator differ on a wire name outside the identifier alphabet'))
+    return drift
+
 # label None = witness of a REPAIRED class (fixed in /repo): the case is in no class and every judgement must pass
 WITNESSES = [
     ('scala', {'package': 'onepassword'}, '#[typeshare]\npub struct A { pub x: String }\n', None),
@@ -560,6 +644,7 @@ def run(chk):
             for cfg in cfgs[lang]:
                 cases.append((lang, cfg, src, {'seed': p.seed}))
     drift += judge(chk, cases, 'gen')
+    drift += phase_go_strings(chk, 60 if chk.tier == 'quick' else 1200)
     # 3. snapshot inputs
     snaps = []
     for f in sorted(glob.glob(str(vf.REPO / 'core' / 'data' / 'tests' / '*' / 'input.rs'))):
